@@ -41,13 +41,13 @@ theorem lookup_filter_key (m : List (K × α)) (q : K → Bool) (k : K) :
   | cons p r ih =>
     by_cases hp : p.1 = k
     · by_cases hq : q k = true
-      · simp [List.filter_cons, hp, hq, lookup]
+      · simp [hp, hq, lookup]
       · simp only [Bool.not_eq_true] at hq
-        simp [List.filter_cons, hp, hq, ih]
+        simp [hp, hq, ih]
     · by_cases hq : q p.1 = true
-      · simp [List.filter_cons, hq, lookup, hp, ih]
+      · simp [hq, lookup, hp, ih]
       · simp only [Bool.not_eq_true] at hq
-        simp [List.filter_cons, hq, lookup, hp, ih]
+        simp [hq, lookup, hp, ih]
 
 theorem lookup_erase (m : List (K × α)) (k k' : K) :
     lookup (erase m k) k' = if k' = k then none else lookup m k' := by
@@ -133,14 +133,14 @@ theorem lookup_orderPart (disk : List (K × α)) (order : List K) (k : K) :
     by_cases ho : o = k
     · subst ho
       cases hl : lookup disk o with
-      | some b => simp [List.filterMap_cons, hl, lookup]
+      | some b => simp [hl, lookup]
       | none =>
         simp only [List.filterMap_cons, hl, Option.map_none, ih, List.mem_cons, true_or, if_true]
         split <;> rfl
     · have hne : ¬ k = o := fun e => ho e.symm
       cases hl : lookup disk o with
-      | some b => simp [List.filterMap_cons, hl, lookup, ho, ih, hne]
-      | none => simp [List.filterMap_cons, hl, ih, hne]
+      | some b => simp [hl, lookup, ho, ih, hne]
+      | none => simp [hl, ih, hne]
 
 theorem lookup_reorder (disk : List (K × α)) (order : List K) (k : K) :
     lookup (reorder disk order) k = lookup disk k := by
